@@ -311,8 +311,9 @@ def gen_ctime_spec(rng, spec):
     f = dict(w, wd=model.weekday("gregorian", dn))
     spec.update(src="arg", notation=n, written=w, text=cm.render_ctime(f),
                 ctime=True)
-    spec["offsets"] = [gen_offset(rng, "hms", False) for _ in range(
-        rng.choice([0, 1, 1, 2]))]
+    spec["offsets"] = [o for o in [gen_offset(rng, "hms", False)
+                                   for _ in range(rng.choice([0, 1, 1, 2]))]
+                       if abs(o["us"]) <= 900 * cm.UNIT_US["D"]]
     return spec
 
 
@@ -611,6 +612,12 @@ def gen_invocation_valid_for_mutation(rng, mode, utc, cal_opt):
     if cal_opt:
         opts += ["--calendar", cal_opt]
     off = gen_offset(rng, n["time"])["text"]
+    import re
+    if re.search(r"\d{4,}", off):
+        # a damaged long number can become an astronomically large (but
+        # finite) offset, which the library ticks over day by day for ever:
+        # termination is not this property's business
+        off = "P1DT2H"
     if shape == "point":
         return [mutate(rng, ptext)] + opts, "item"
     if shape == "point_off":
@@ -701,6 +708,36 @@ def point_step(rng, notation, mode, cal_opt, env_cal, utc, offsets):
 NOTATIONS_PER_TRACE = 10
 
 
+def known_finding_steps():
+    """The specific inputs of the findings recorded in known_findings.json,
+    run in every check so that each KNOWN-FINDING line is backed by an
+    observation of this very run."""
+    env = {"cal": None, "ref": None}
+    n_neg = {"date": "cal_ext", "ystyle": "x", "time": "h", "dec": ",",
+             "zone": "Z"}
+    w_neg = {"rep": "cal", "y": -2000, "m": 1, "d": 1, "H": 0, "M": 0,
+             "S": 0, "us": 0, "off": 0}
+    neg = {"k": "inv", "env": env, "stdin": None, "entry": "sys.argv",
+           "argv": ["-002000-01-01T00Z"],
+           "spec": {"kind": "point", "src": "arg", "notation": n_neg,
+                    "written": w_neg, "text": "-002000-01-01T00Z",
+                    "offsets": [], "utc": False, "cal": None, "flags": {}}}
+    pct = {"k": "inv", "env": env, "stdin": None, "entry": "argv",
+           "argv": ["2000-01-01T00:00:00Z", "-f", "CCYY-MM-DDThh%.iiZ"],
+           "spec": {"kind": "bad", "cal": None, "utc": False, "slot": "pf"}}
+    n_rec = {"date": "cal_ext", "ystyle": "ccyy", "time": "hms_dec",
+             "dec": ",", "zone": "Z"}
+    w_rec = {"rep": "cal", "y": 2024, "m": 12, "d": 31, "H": 0, "M": 0,
+             "S": 0, "us": 100000, "off": 0}
+    rec = {"k": "inv", "env": env, "stdin": None, "entry": "argv",
+           "argv": ["R3/PT1S/2024-12-31T00:00:00,1Z"], "rec_groups": [],
+           "spec": {"kind": "rec", "notation": n_rec, "written": w_rec,
+                    "form": 4, "reps": 3, "interval_text": "PT1S",
+                    "interval_us": 10 ** 6, "utc": False, "cal": None,
+                    "text": "R3/PT1S/2024-12-31T00:00:00,1Z"}}
+    return [neg, pct, rec]
+
+
 def gen_directed(rng, index):
     """Directed family: every documented notation (date form x year style x
     time form x decimal sign x zone form), each printed back unshifted, shifted
@@ -714,7 +751,7 @@ def gen_directed(rng, index):
     mode_plan = [("gregorian", None, None), ("360day", "360day", None),
                  ("365_day", None, "365_day"), ("366day", "366day", "360day")]
     mode, cal_opt, env_cal = mode_plan[variant % len(mode_plan)]
-    steps = []
+    steps = known_finding_steps() if index == 0 else []
     for notation in notations[chunk * NOTATIONS_PER_TRACE:
                               (chunk + 1) * NOTATIONS_PER_TRACE]:
         steps.append(point_step(rng, notation, mode, cal_opt, env_cal,
